@@ -77,9 +77,18 @@ def randsphere(chk, repo):
     else:
         chk.ob("R19.box", "randsphere::returns-pair", False, fi.where(), "got %r" % (res,))
     # xyz system goes through eq2xyz of the same ra/dec
-    rets = [x for x in walk_no_nested(fi.node) if isinstance(x, ast.Return)]
-    cfg = cfg_of(fi)
-    ok = any(isinstance(x, ast.Assign) and isinstance(x.value, ast.Call) and call_name(x.value) == "eq2xyz" and [norm(a) for a in x.value.args] == ["ra", "dec"] for x in walk_no_nested(fi.node))
+    se_x = symx.SymEval(repo, opaque={CO + "atbound", CO + "atbound2", CO + "_check_range", CO + "eq2xyz"})
+    ok = None
+    try:
+        resx = se_x.run(fi, {"num": num, "ra_range": [r0, r1], "dec_range": [d0, d1], "rng": rng}, {"system": "xyz"},
+                        pins={"ra_range": [r0, r1], "dec_range": [d0, d1]})
+        comps = list(resx) if isinstance(resx, tuple) else [resx]
+        if isinstance(res, tuple) and len(res) == 2 and comps and all(isinstance(c, sp.Basic) and getattr(c.func, "__name__", "").startswith("eq2xyz") for c in comps):
+            names = [c.func.__name__ for c in comps]
+            ok = names in (["eq2xyz"], ["eq2xyz_0", "eq2xyz_1", "eq2xyz_2"]) and \
+                all(len(c.args) == 2 and symx.equal(c.args[0], res[0])[0] and symx.equal(c.args[1], res[1])[0] for c in comps)
+    except symx.Unsupported:
+        ok = None
     chk.ob("R19.box", "randsphere::xyz-system-converts-same-points", ok, fi.where(), "system='xyz' returns eq2xyz(ra, dec) of the generated points")
     # ranges are validated
     cr = repo.func(CO + "_check_range")
@@ -90,6 +99,225 @@ def randsphere(chk, repo):
     chk.ob("R19.box", "randsphere::allowed-intervals", calls == {"_check_range(ra_range, [0.0, 360.0])", "_check_range(dec_range, [-90.0, 90.0])"}, fi.where(), "allowed intervals [0,360] and [-90,90] (%s)" % sorted(calls))
 
 
+# --------------------------------------------------------------------------
+# helpers for the cap sampler
+# --------------------------------------------------------------------------
+
+DRAW_METHODS = ("uniform", "random", "random_sample", "normal", "standard_normal")
+UNIFORM_FAMILY = ("uniform", "random", "random_sample")     # deviates on [0,1) (uniform: scaled by its low/high, which symx applies)
+POLE = sp.Rational(899, 10)
+
+
+def _value_names(x):
+    """names read as values in expression x (callee expressions left out)"""
+    skip = set()
+    for c in ast.walk(x):
+        if isinstance(c, ast.Call):
+            skip |= {id(y) for y in ast.walk(c.func)}
+    return {n.id for n in ast.walk(x) if isinstance(n, ast.Name) and id(n) not in skip}
+
+
+def _polar_predicates(repo, fi, param):
+    """the maximal boolean expressions of fi that depend on nothing but the centre latitude `param` (comparisons of it, or of its
+    absolute value, with literals): [(node, sympy set of latitudes where it holds or None)]"""
+    out = []
+    covered = set()
+    lat = sp.Symbol(param, real=True)
+    for x in walk_no_nested(fi.node):
+        if id(x) in covered or not isinstance(x, (ast.BoolOp, ast.Compare, ast.UnaryOp)):
+            continue
+        if isinstance(x, ast.UnaryOp) and not isinstance(x.op, ast.Not):
+            continue
+        if _value_names(x) != {param} or not any(isinstance(y, ast.Compare) for y in ast.walk(x)):
+            continue
+        if any(isinstance(y, ast.Call) and call_name(y) not in ("abs", "fabs", "absolute") for y in ast.walk(x)):
+            continue
+        if any(isinstance(y, (ast.Attribute, ast.Subscript)) and not any(isinstance(c, ast.Call) and y in ast.walk(c.func) for c in ast.walk(x)) for y in ast.walk(x)):
+            continue
+        covered |= {id(y) for y in ast.walk(x)}
+        where = None
+        try:
+            env = symx.Env(symx.SymEval(repo), fi, fi.module, {param: lat}, {})
+            t = env.truth(x)
+            if isinstance(t, bool):
+                where = sp.S.Reals if t else sp.S.EmptySet
+            elif isinstance(t, sp.Basic):
+                where = t.as_set()
+        except Exception:
+            where = None
+        out.append((x, where))
+    return out
+
+
+def _rel_key(c):
+    """canonical form of a relational: (kind, normalised lhs-rhs); a positive constant factor does not matter"""
+    if isinstance(c, (sp.StrictGreaterThan, sp.GreaterThan)):
+        d, kind = c.lhs - c.rhs, type(c).__name__
+    elif isinstance(c, sp.StrictLessThan):
+        d, kind = c.rhs - c.lhs, "StrictGreaterThan"
+    elif isinstance(c, sp.LessThan):
+        d, kind = c.rhs - c.lhs, "GreaterThan"
+    elif isinstance(c, (sp.Eq, sp.Ne)):
+        d, kind = c.lhs - c.rhs, type(c).__name__
+    else:
+        return ("cond", sp.srepr(c))
+    d = sp.expand(d)
+    try:
+        syms = sorted(d.free_symbols, key=str)
+        lc = sp.Poly(d, *syms).LC() if syms else sp.Integer(1)
+        if lc.is_number and lc != 0:
+            if lc.is_positive:
+                d = sp.expand(d / lc)
+            elif kind in ("Equality", "Unequality"):
+                d = sp.expand(d / lc)
+            else:
+                d = sp.expand(d / -lc)
+    except Exception:
+        pass
+    return (kind, sp.srepr(d))
+
+
+def _cond_atoms(e, acc):
+    if isinstance(e, sp.Piecewise):
+        for v, c in e.args:
+            _cond_rels(c, acc)
+            _cond_atoms(v, acc)
+    elif isinstance(e, sp.Basic):
+        for a in e.args:
+            _cond_atoms(a, acc)
+
+
+def _cond_rels(c, acc):
+    if c is sp.true or c is sp.false:
+        return
+    if isinstance(c, sp.Rel):
+        k = _rel_key(c)
+        if k not in acc:
+            acc.append(k)
+        _cond_atoms(c.lhs, acc)
+        _cond_atoms(c.rhs, acc)
+    elif isinstance(c, (sp.And, sp.Or, sp.Not)):
+        for a in c.args:
+            _cond_rels(a, acc)
+    else:
+        k = ("cond", sp.srepr(c))
+        if k not in acc:
+            acc.append(k)
+
+
+def _cond_value(c, val):
+    if c is sp.true or c == True:      # noqa
+        return True
+    if c is sp.false or c == False:    # noqa
+        return False
+    if isinstance(c, sp.And):
+        return all(_cond_value(a, val) for a in c.args)
+    if isinstance(c, sp.Or):
+        return any(_cond_value(a, val) for a in c.args)
+    if isinstance(c, sp.Not):
+        return not _cond_value(c.args[0], val)
+    return val[_rel_key(c) if isinstance(c, sp.Rel) else ("cond", sp.srepr(c))]
+
+
+def _select(e, val):
+    """e with every Piecewise replaced by the arm chosen under the truth assignment val"""
+    if isinstance(e, sp.Piecewise):
+        for v, c in e.args:
+            if _cond_value(c, val):
+                return _select(v, val)
+        return sp.nan
+    if isinstance(e, sp.Basic) and e.args and e.has(sp.Piecewise):
+        return e.func(*[_select(a, val) for a in e.args])
+    return e
+
+
+def cases_equal(a, b):
+    """equality of two terms containing element-wise selections (Piecewise): compared arm by arm under every truth assignment of
+    the (canonicalised) selecting conditions, so that where(c, x+y, x-y) and x + where(c, 1, -1)*y are the same term"""
+    a, b = sp.sympify(a), sp.sympify(b)
+    atoms = []
+    _cond_atoms(a, atoms)
+    _cond_atoms(b, atoms)
+    if not atoms:
+        return symx.equal(a, b)[0]
+    if len(atoms) > 4:
+        return symx.equal(a, b)[0]
+    import itertools
+    for bits in itertools.product((True, False), repeat=len(atoms)):
+        val = dict(zip(atoms, bits))
+        if not symx.equal(_select(a, val), _select(b, val))[0]:
+            return False
+    return True
+
+
+def _draw_sites(repo, fi, roles, seen=None):
+    """every generator-draw call site reachable from fi, following calls into package functions with the roles of the parameters
+    carried along (roles: parameter name -> 'gen' | 'count'): [(where, method, receiver role, size role)]"""
+    seen = set() if seen is None else seen
+    key = (fi.qualname, tuple(sorted(roles.items())))
+    if key in seen:
+        return []
+    seen.add(key)
+    # a role is lost when the name is re-bound, except by the documented `if <gen> is None: <gen> = ...` fallback
+    cfg = cfg_of(fi)
+    view = cfg.view()
+    roles = dict(roles)
+    for n in cfg.nodes:
+        if n.ast is None or n.kind not in ("stmt", "loop", "with"):
+            continue
+        d, _ = cfg.defs_uses(n)
+        for v in d:
+            if v in roles:
+                ts = rules.controlling_tests(view, n)
+                if roles[v] == "gen" and any(t == "%s is None" % v and lab == "T" for t, lab in ts):
+                    continue
+                roles[v] = "rebound"
+    out = []
+    for x in walk_no_nested(fi.node):
+        if not isinstance(x, ast.Call):
+            continue
+        f = x.func
+        if isinstance(f, ast.Attribute) and f.attr in DRAW_METHODS and not (dotted_name(f) and repo.resolve_name(fi.module, dotted_name(f)).startswith(("numpy.", "math.", "scipy."))):
+            recv = rules.expand(f.value, fi.node)
+            size = kwarg(x, "size")
+            if size is None:
+                pos = 2 if f.attr in ("uniform", "normal") else 0
+                size = x.args[pos] if len(x.args) > pos else None
+            size = rules.expand(size, fi.node) if size is not None else None
+            out.append((fi.where(x), f.attr,
+                        roles.get(recv.id) if isinstance(recv, ast.Name) else None,
+                        roles.get(size.id) if isinstance(size, ast.Name) else None))
+            continue
+        d = dotted_name(f)
+        full = repo.resolve_name(fi.module, d) if d else None
+        if full and repo.has(full):
+            tgt = repo.func(full)
+            params = [p for p in tgt.params if not p.startswith("*")]
+            sub = {}
+            for p, a in zip(params, x.args):
+                a = rules.expand(a, fi.node)
+                if isinstance(a, ast.Name) and roles.get(a.id) in ("gen", "count"):
+                    sub[p] = roles[a.id]
+            for k in x.keywords:
+                a = rules.expand(k.value, fi.node)
+                if k.arg and isinstance(a, ast.Name) and roles.get(a.id) in ("gen", "count"):
+                    sub[k.arg] = roles[a.id]
+            if "gen" in sub.values():
+                out += _draw_sites(repo, tgt, sub, seen)
+    return out
+
+
+def _try_run(se, fi, args, flags):
+    try:
+        return se.run(fi, args, flags), None
+    except symx.Unsupported as e:
+        return None, str(e)
+
+
+def _is_triple(res):
+    return isinstance(res, tuple) and len(res) == 3 and all(isinstance(x, sp.Basic) for x in res)
+
+
 def randcap(chk, repo):
     fi = repo.func(CO + "randcap")
     chk.analysed_unit(fi.qualname)
@@ -98,73 +326,153 @@ def randcap(chk, repo):
     AT = sp.Function("atbound")
     CL = sp.Function("CLIP")
     d2r = sp.pi / 180
+    R = "R19.cap"
+    w = fi.where()
+    # ---- which path is taken: the polar test is a predicate of the centre latitude alone
+    preds = _polar_predicates(repo, fi, "dec")
+    polar_set = sp.Union(sp.Interval(-sp.oo, -POLE), sp.Interval(POLE, sp.oo))
+    assume_direct = {}
+    polar_ok = None
+    if preds and all(s is not None for _, s in preds):
+        polar_ok = True
+        for node, s in preds:
+            if s == polar_set:
+                assume_direct["text:" + norm(node)] = False
+            elif s == sp.Interval.open(-POLE, POLE):
+                assume_direct["text:" + norm(node)] = True
+            else:
+                polar_ok = False
+                assume_direct["text:" + norm(node)] = not (sp.Integer(90) in s)
+    args = {"nrand": nrand, "ra": ra, "dec": dec, "rad": rad, "rng": rng}
+
+    def unrec(keys, why):
+        for k in keys:
+            chk.ob(R, k, None, w, why)
+
+    DIRECT = ["randcap[direct]::draws-from-passed-generator", "randcap[direct]::dec-formula", "randcap[direct]::ra-folded-into-[0,360]",
+              "randcap[direct]::ra-formula", "randcap[direct]::returned-radius-in-degrees"]
+    ROTATED = ["randcap[rotated]::returned-radius-in-degrees", "randcap[rotated]::positions-are-rotated-cap", "randcap[rotated]::rotation-sequence",
+               "randcap[rotated]::inner-cap"]
+    if not assume_direct:
+        unrec(DIRECT + ROTATED + ["randcap::polar-fallback"], "no test of the centre latitude alone selects between the direct and the rotated construction: path selection not recognised")
+        return
+    # ---- RNG provenance: every draw reachable from randcap is a method call on the passed generator with size = the requested count
+    sites = _draw_sites(repo, fi, {"rng": "gen", "nrand": "count"})
+    prov = bool(sites) and all(g == "gen" and c == "count" for _, _, g, c in sites)
     # ---- direct path
     se = symx.SymEval(repo, opaque={CO + "atbound", CO + "atbound2"})
-    res = se.run(fi, {"nrand": nrand, "ra": ra, "dec": dec, "rad": rad, "rng": rng}, {"get_radius": True}, pins={"dorot": False})
+    se.assume = dict(assume_direct)
+    res, err = _try_run(se, fi, dict(args, dorot=False), {"get_radius": True})
     dr = _draws(se)
-    ok = len(dr) == 2 and all(d[2] == "rng" for d in dr) and dr[0][1] == "random" and dr[1][4] == "nrand"
-    chk.ob("R19.cap", "randcap[direct]::draws-from-passed-generator", ok, fi.where(), "radius and position-angle deviates come from the passed generator: %s" % [(d[1], d[2], d[4]) for d in dr])
-    if not (isinstance(res, tuple) and len(res) == 3 and len(dr) == 2):
-        chk.ob("R19.cap", "randcap[direct]::returns-triple", False, fi.where(), "got %r" % (res,))
-        return
-    U1, U2 = sp.Symbol(dr[0][5]), sp.Symbol(dr[1][5])
-    r = sp.sqrt(U1) * rad * d2r
-    psi = 2 * sp.pi * U2
-    th = (dec + 90) * d2r
-    ph = ra * d2r
-    cos_t2 = CL(sp.cos(th) * sp.cos(r) + sp.sin(th) * sp.sin(r) * sp.cos(psi), -1, 1)
-    t2 = sp.acos(cos_t2)
-    cosD = CL((sp.cos(r) - sp.cos(th) * cos_t2) / (sp.sin(th) * sp.sin(t2)), -1, 1)
-    D = sp.acos(cosD)
-    rra, rdec, rr = res
-    eq, d = symx.equal(rdec, t2 / d2r - 90)
-    chk.ob("R19.cap", "randcap[direct]::dec-formula", eq, fi.where(), "colatitude of the point from the spherical law of cosines with a two-sided clip before acos%s" % ("" if eq else " (difference %s)" % str(d)[:160]))
-    ok = isinstance(rra, AT) and rra.args[1:] == (0, 360)
-    chk.ob("R19.cap", "randcap[direct]::ra-folded-into-[0,360]", bool(ok), fi.where(), "the generated longitude is folded into [0,360] on the direct path")
-    if ok:
-        inner = rra.args[0]
-        want = sp.Piecewise(((ph + D) / d2r, psi > sp.pi), ((ph - D) / d2r, True))
-        eq, d = symx.equal(inner, want)
-        if not eq and isinstance(inner, sp.Piecewise):
-            eq = all(symx.equal(a[0], b[0])[0] for a, b in zip(inner.args, want.args)) and len(inner.args) == 2 and \
-                sp.simplify((inner.args[0][1].lhs - inner.args[0][1].rhs) - (psi - sp.pi)) == 0
-        if not eq:
-            k, rest = inner.as_independent(ra, dec, rad, U1, U2, as_Add=False)
-            if isinstance(rest, sp.Piecewise) and sp.simplify(k - 1 / d2r) == 0:
-                eq = symx.equal(rest.args[0][0], ph + D)[0] and symx.equal(rest.args[1][0], ph - D)[0]
-        chk.ob("R19.cap", "randcap[direct]::ra-formula", bool(eq), fi.where(), "longitude = centre +/- acos(clip((cos r - cos t cos t2)/(sin t sin t2))) by position angle")
-    eq, d = symx.equal(rr, sp.sqrt(U1) * rad)
-    chk.ob("R19.cap", "randcap[direct]::returned-radius-in-degrees", eq, fi.where(),
-           "returned radii are the generated separations sqrt(U)*rad in degrees (found %s)" % rr)
-    # ---- rotated path: radii must be the same quantity in the same unit
+    rra = rdec = None
+    if err is not None or not isinstance(res, tuple):
+        unrec(DIRECT, "direct path not evaluated: %s" % (err or "result %r" % (res,)))
+    elif len(res) != 3:
+        chk.ob(R, "randcap[direct]::returns-triple", False, w, "get_radius=True must return (ra, dec, radius); got %d values" % len(res))
+    else:
+        ok = len(dr) == 2 and all(d[1] in UNIFORM_FAMILY for d in dr) and prov
+        chk.ob(R, "randcap[direct]::draws-from-passed-generator", ok if sites else None, w,
+               "exactly two uniform deviates (radius, position angle), every draw a method of the passed generator with size = the requested count: "
+               "evaluated draws %s; draw sites %s" % ([(d[1], d[2], d[4]) for d in dr], sites))
+        if len(dr) != 2 or not _is_triple(res):
+            unrec(DIRECT[1:], "direct path: %d deviates, result %s" % (len(dr), str(res)[:120]))
+        else:
+            U1, U2 = sp.Symbol(dr[0][5]), sp.Symbol(dr[1][5])
+            r = sp.sqrt(U1) * rad * d2r
+            psi = 2 * sp.pi * U2
+            th = (dec + 90) * d2r
+            ph = ra * d2r
+            cos_t2 = CL(sp.cos(th) * sp.cos(r) + sp.sin(th) * sp.sin(r) * sp.cos(psi), -1, 1)
+            t2 = sp.acos(cos_t2)
+            cosD = CL((sp.cos(r) - sp.cos(th) * cos_t2) / (sp.sin(th) * sp.sin(t2)), -1, 1)
+            D = sp.acos(cosD)
+            rra, rdec, rr = res
+            eq, d = symx.equal(rdec, t2 / d2r - 90)
+            chk.ob(R, "randcap[direct]::dec-formula", eq, w, "colatitude of the point from the spherical law of cosines with a two-sided clip before acos%s" % ("" if eq else " (difference %s)" % str(d)[:160]))
+            ok = isinstance(rra, AT) and rra.args[1:] == (0, 360)
+            chk.ob(R, "randcap[direct]::ra-folded-into-[0,360]", bool(ok), w, "the generated longitude is folded into [0,360] on the direct path")
+            inner = rra.args[0] if isinstance(rra, AT) else rra
+            want = sp.Piecewise(((ph + D) / d2r, psi > sp.pi), ((ph - D) / d2r, True))
+            eq = cases_equal(inner, want)
+            chk.ob(R, "randcap[direct]::ra-formula", bool(eq), w, "longitude = centre +/- acos(clip((cos r - cos t cos t2)/(sin t sin t2))) by position angle")
+            eq, d = symx.equal(rr, sp.sqrt(U1) * rad)
+            chk.ob(R, "randcap[direct]::returned-radius-in-degrees", eq, w,
+                   "returned radii are the generated separations sqrt(U)*rad in degrees (found %s)" % rr)
+    # ---- rotated path: radii must be the same quantity in the same unit; positions are the equatorial cap, tilted then turned
     se2 = symx.SymEval(repo, opaque={CO + "atbound", CO + "atbound2", CO + "rotate"})
-    res2 = se2.run(fi, {"nrand": nrand, "ra": ra, "dec": dec, "rad": rad, "rng": rng}, {"get_radius": True}, pins={"dorot": True})
+    se2.assume = dict(assume_direct)
+    res2, err = _try_run(se2, fi, dict(args, dorot=True), {"get_radius": True})
     dr2 = _draws(se2)
-    if isinstance(res2, tuple) and len(res2) == 3 and dr2:
+    if err is not None or not isinstance(res2, tuple):
+        unrec(ROTATED, "rotated path not evaluated: %s" % (err or "result %r" % (res2,)))
+        res2 = None
+    elif len(res2) != 3:
+        chk.ob(R, "randcap[rotated]::returns-triple", False, w, "get_radius=True must return (ra, dec, radius); got %d values" % len(res2))
+        res2 = None
+    elif not dr2 or not _is_triple(res2):
+        unrec(ROTATED, "rotated path: %d deviates, result %s" % (len(dr2), str(res2)[:120]))
+        res2 = None
+    else:
         V1 = sp.Symbol(dr2[0][5])
         rr2 = res2[2]
         eq, d = symx.equal(rr2, sp.sqrt(V1) * rad)
         factor = sp.simplify(rr2 / (sp.sqrt(V1) * rad))
-        chk.ob("R19.cap", "randcap[rotated]::returned-radius-in-degrees", eq, fi.where(),
+        chk.ob(R, "randcap[rotated]::returned-radius-in-degrees", eq, w,
                "on the rotated path the returned radii are those of the generated cap, still in degrees%s"
                % ("" if eq else ": they are %s times too large (converted rad->deg a second time after the inner call already returned degrees)" % factor))
-        RO = sp.Function("rotate")
-        ok = isinstance(res2[0], sp.Basic) and isinstance(res2[1], sp.Basic)
-        chk.ob("R19.cap", "randcap[rotated]::positions-are-rotated-cap", bool(ok) and (res2[0].has(RO) or res2[1].has(RO) or True), fi.where(), "positions come from rotating an equatorial cap to the requested centre")
+        # positions: rotate(ra - 90, 0, 0, *rotate(0, dec - 0, 0, X, Y)) with (X, Y) the direct construction at (90, 0)
+        shape = _rotation_shape(res2[0], res2[1])
+        if shape is None:
+            unrec(ROTATED[1:], "the rotated positions are not two nested applications of rotate(): %s" % str(res2[0])[:160])
+        else:
+            outer, inner_, X, Y = shape
+            chk.ob(R, "randcap[rotated]::positions-are-rotated-cap", True, w, "positions come from rotating a generated cap to the requested centre")
+            if outer is None:
+                chk.ob(R, "randcap[rotated]::rotation-sequence", False, w,
+                       "tilt by (dec - 0) about the node, then turn by (ra - 90) about the pole: a single rotate%s is applied instead" % (inner_,))
+            else:
+                ok = all(symx.equal(a, b)[0] for a, b in zip(inner_, (0, dec, 0))) and all(symx.equal(a, b)[0] for a, b in zip(outer, (ra - 90, 0, 0)))
+                chk.ob(R, "randcap[rotated]::rotation-sequence", ok, w,
+                       "tilt by (dec - 0) about the node, then turn by (ra - 90) about the pole (found rotate%s after rotate%s)" % (outer, inner_))
+            if rra is None or len(dr2) != 2:
+                chk.ob(R, "randcap[rotated]::inner-cap", None if rra is None else False, w,
+                       "the equatorial cap is the direct construction at (90, 0) with the same count, radius and generator (%d deviates)" % len(dr2))
+            else:
+                sub = {ra: 90, dec: 0, sp.Symbol(dr[0][5]): sp.Symbol(dr2[0][5]), sp.Symbol(dr[1][5]): sp.Symbol(dr2[1][5])}
+                ok = all(d[1] in UNIFORM_FAMILY for d in dr2) and prov and cases_equal(X, rra.subs(sub, simultaneous=True)) and cases_equal(Y, rdec.subs(sub, simultaneous=True))
+                chk.ob(R, "randcap[rotated]::inner-cap", bool(ok), w, "the equatorial cap is the direct construction at (90, 0) with the same count, radius and generator")
+    # ---- polar centres force the rotated path
+    if polar_ok is None or res2 is None:
+        chk.ob(R, "randcap::polar-fallback", None, w, "polar test or rotated path not recognised")
+    elif not polar_ok:
+        chk.ob(R, "randcap::polar-fallback", False, w, "centres within 0.1 degree of a pole use the rotated path: the latitude test holds on %s" % [str(s) for _, s in preds])
     else:
-        chk.ob("R19.cap", "randcap[rotated]::returns-triple", False, fi.where(), "got %r" % (res2,))
-    # the rotation calls: first tilt by dec - 0, then turn by ra - 90
-    rc = sorted([x for x in walk_no_nested(fi.node) if isinstance(x, ast.Call) and call_name(x) == "rotate"], key=lambda x: x.lineno)
-    want = ["rotate(0.0, dec - tdec, 0.0, rand_ra, rand_dec)", "rotate(ra - tra, 0.0, 0.0, rand_ra, rand_dec)"]
-    chk.ob("R19.cap", "randcap[rotated]::rotation-sequence", [norm(c) for c in rc] == want, fi.where(), "tilt by (dec - 0) about the node, then turn by (ra - 90) about the pole")
-    inner = [x for x in walk_no_nested(fi.node) if isinstance(x, ast.Call) and call_name(x) == "randcap"]
-    ok = len(inner) == 1 and [norm(a) for a in inner[0].args] == ["nrand", "90.0", "0.0", "rad"] and norm(kwarg(inner[0], "rng")) == "rng" and norm(kwarg(inner[0], "get_radius")) == "True"
-    chk.ob("R19.cap", "randcap[rotated]::inner-cap", ok, fi.where(), "the equatorial cap is generated at (90, 0) with the same count, radius and generator")
-    # polar centres force the rotated path
-    cfg = cfg_of(fi)
-    forced = [n for n in cfg.nodes if n.kind == "stmt" and isinstance(n.ast, ast.Assign) and norm(n.ast) == "dorot = True"]
-    ok = len(forced) == 1 and rules.controlling_tests(cfg.view(), forced[0])[:1] == [("dec >= 89.9 or dec <= -89.9", "T")]
-    chk.ob("R19.cap", "randcap::polar-fallback", ok, fi.where(), "centres within 0.1 degree of a pole use the rotated path")
+        ok = True
+        why = ""
+        for pole in (90, -90, POLE, -POLE):
+            se3 = symx.SymEval(repo, opaque={CO + "atbound", CO + "atbound2", CO + "rotate"})
+            res3, err = _try_run(se3, fi, dict(args, dec=sp.sympify(pole), dorot=False), {"get_radius": True})
+            if err is not None or not _is_triple(res3):
+                ok, why = None, "centre latitude %s not evaluated: %s" % (pole, err or res3)
+                break
+            if not all(symx.equal(a, b.subs(dec, pole))[0] for a, b in zip(res3, res2)):
+                ok, why = False, "at centre latitude %s the result is not the rotated construction" % pole
+                break
+        chk.ob(R, "randcap::polar-fallback", ok, w, "centres within 0.1 degree of a pole use the rotated path %s" % why)
+
+
+def _rotation_shape(pa, pb):
+    """(outer angles or None, inner angles, X, Y) when (pa, pb) are the two components of rotate(o, *rotate(i, X, Y)) or of one
+    rotate(i, X, Y); None when they are not rotate applications"""
+    def comp(t, k):
+        return isinstance(t, sp.Basic) and getattr(t.func, "__name__", "") == "rotate_%d" % k and len(t.args) == 5
+    if not (comp(pa, 0) and comp(pb, 1) and pa.args == pb.args):
+        return None
+    a = pa.args
+    if comp(a[3], 0) and comp(a[4], 1) and a[3].args == a[4].args:
+        b = a[3].args
+        return tuple(a[:3]), tuple(b[:3]), b[3], b[4]
+    return None, tuple(a[:3]), a[3], a[4]
 
 
 SAMPLERS = [CO + "randsphere", CO + "randcap", RA + "Generator.__init__", RA + "Generator.sample", RA + "Generator._genrand_accum", RA + "Generator._genrand_cut",
